@@ -85,6 +85,8 @@ func leaves() (out []jx.Obj, names []string) {
 	add("empty:ap-false", jx.Obj{"type": "object", "additionalProperties": false})
 	add("empty:discriminator-only", jx.Obj{"type": "object", "discriminator": "kind"})
 	add("map:string+discriminator", jx.Obj{"type": "object", "discriminator": "kind", "additionalProperties": jx.Obj{"type": "string"}})
+	add("empty:allOf-empty-list", jx.Obj{"type": "object", "allOf": jx.Arr{}})
+	add("map:string+allOf-empty-list", jx.Obj{"type": "object", "allOf": jx.Arr{}, "additionalProperties": jx.Obj{"type": "string"}})
 	add("array:no-items", jx.Obj{"type": "array"})
 	add("map:true", jx.Obj{"type": "object", "additionalProperties": true})
 	add("map:true-notype", jx.Obj{"additionalProperties": true})
